@@ -284,7 +284,8 @@ def build_leaf(spec, shape, ctxk):
     if t == "householder":
         return Built(T.HouseholderSequence(D, spec.get("n", 2)), shape, affine=True, tags=["linear"])
     if t == "batchnorm":
-        return Built(T.BatchNorm(D, eps=float(spec.get("eps", 1e-5)), momentum=float(spec.get("momentum", 0.1))), shape, affine=True,
+        return Built(T.BatchNorm(D, eps=float(spec.get("eps", 1e-5)), momentum=float(spec.get("momentum", 0.1)), affine=bool(spec.get("affine", True))),
+                     shape, affine=True,
                      batch_coupled_in_train=True, tags=["norm"])
     if t == "actnorm":
         return Built(T.ActNorm(shape[0]), shape, affine=True, tags=["norm"])
@@ -783,7 +784,8 @@ def leaf_spec(draw, shape, cur, ctxk, opts):
     if name == "actnorm":
         return {"t": "actnorm"}
     if name == "batchnorm":
-        return {"t": "batchnorm", "eps": draw(st.sampled_from([1e-5, 1e-3])), "momentum": draw(st.sampled_from([0.1, 0.5]))}
+        return {"t": "batchnorm", "eps": draw(st.sampled_from([1e-5, 1e-3])), "momentum": draw(st.sampled_from([0.1, 0.5])),
+                "affine": draw(st.sampled_from([True, True, False]))}   # (a constructor flag the class accepts; the map it computes defines the log-det)
     if name in ("naive", "lu", "qr", "svd"):
         d = {"t": name, "cache": draw(st.booleans()), "seed": seed}
         if name == "naive":
